@@ -11,15 +11,14 @@ THEOREMS = [
     "GoaktVerif.C46.concat_correct",
     "GoaktVerif.C46.broadcast_correct",
     "GoaktVerif.C46.partition_correct",
-    "GoaktVerif.C46.balance_guarded",
-    "GoaktVerif.C46.balance_witness",
-    "GoaktVerif.C46.C46_refuted",
-    "GoaktVerif.C46.C46_partial",
+    "GoaktVerif.C46.BlInv.step",
+    "GoaktVerif.C46.balance_correct",
+    "GoaktVerif.C46.C46_holds",
 ]
 INPKG = ["stream/zz_verif_c45.go", "stream/zz_verif_c46.go"]
 TIMEOUT = 900
 MANIFEST = {
-    "level_text": "Kernel-checked theorems on state-machine models of the junction actors, each for EVERY sequence of messages after the stageWire (any demand pattern, any arrival order, completion at any time): Merge and Concat forward sub-values in arrival order and complete only after everything that arrived was sent, and a completed Merge output is an interleaving (inductive predicate Interleave) of the per-source arrival sequences (merge_correct, concat_correct, interleave_projs); the Broadcast hub sends every element to every branch in order (broadcast_correct); the Partition hub sends branch i exactly the elements whose selector is i (partition_correct); the Balance hub sends every element to exactly one branch PROVIDED no element arrives while no live branch has demand (balance_guarded). The unguarded Balance clause is refuted with a kernel-checked witness (balance_witness, C46_refuted: finding C46-F1). The judge's interleaving decision procedure is certificate producing and the certificate check is proved sound (checkWitness_sound, isInterleaving_sound).",
+    "level_text": "Kernel-checked theorems on state-machine models of the junction actors, each for EVERY sequence of messages after the stageWire (any demand pattern, any arrival order, completion at any time): Merge and Concat forward sub-values in arrival order and complete only after everything that arrived was sent, and a completed Merge output is an interleaving (inductive predicate Interleave) of the per-source arrival sequences (merge_correct, concat_correct, interleave_projs); the Broadcast hub sends every element to every branch in order (broadcast_correct); the Partition hub sends branch i exactly the elements whose selector is i (partition_correct); the Balance hub (after fix 61853f2: elements that find no demand are buffered) sends, for every message sequence including slot cancellations, each handled element to exactly one branch in arrival order, and tells the branches streamComplete only after everything was sent, at which point the input is an interleaving of the branch sequences (BlInv.step, balance_correct). All clauses together: C46_holds. The judge's interleaving decision procedure is certificate producing and the certificate check is proved sound (checkWitness_sound, isInterleaving_sound).",
     "level_note": "Partial: Zip is tied by the differential and judged by the oracle but has no theorem; the Concat theorem is about arrival order (that arrivals come source by source follows from sub-source i+1 being materialized only after sub-source i reported done, which is in the model's step function but not composed with sub-pipeline models); hub theorems for Broadcast/Partition exclude slotCancel; sub-pipelines, slot actors and sinks are not composed into one network theorem (slot actors are pure relays, tied by replay). Trusted: Lean kernel; the differential (per-actor message replay of the real junction actors between probe actors; end-to-end runs of the real junctions judged by Spec.C46).",
     "technique": "Lean 4 proof (invariants over every message order) on hand-written junction-actor models, tied to the Go code by deterministic per-actor message replay and end-to-end runs judged by a certificate-producing interleaving checker",
 }
@@ -119,7 +118,7 @@ def gen_jh(rng, tier):
             # Balance: an element with no demanding live slot is dropped (finding C46-F1, witnessed by the corpus);
             # generated traces stay where every element finds a slot
             if kind == "blhub":
-                if not any(l and d > 0 for l, d in zip(live, dem)):
+                if rng.random() < 0.7 and not any(l and d > 0 for l, d in zip(live, dem)):
                     continue
                 v = rng.randint(-5, 30)
                 evs.append(f"e{v}")
@@ -242,15 +241,7 @@ def oracle(case, impl, judge):
 
 
 def classify(case, impl, why):
-    f = case.split()
-    # C46-F1: balanceHubActor drops an element that arrives while no live slot has demand (upstream that pushes
-    # without demand: a ParallelMap in the balanced source's pipeline; or, on the hub alone, an element before any slotDemand)
-    if why and "Balance branches do not partition" in why:
-        if f[0] == "blb" or (f[0] == "bl" and len(f) > 3 and f[3].startswith("pm:")):
-            return "C46-F1"
-        if f[0] == "jh" and f[1] == "blhub":
-            return "C46-F1"
-    return None
+    return None   # no open finding (C46-F1 was fixed by 61853f2)
 
 
 def shrink(case):
